@@ -6,6 +6,7 @@
 import Rtp.Model.AV1Pay
 import Rtp.Model.AV1PayBytes
 import Rtp.Model.AV1Depack
+import Rtp.Model.AV1DepackIdx
 import Rtp.Model.AV1Packet
 import Rtp.Pred.C08
 import Rtp.Pred.C09
@@ -68,12 +69,15 @@ def c08Obs (calls : List (UInt16 × Option Bytes)) : List Pred.PayObs :=
 
 /-! ### c09.av1 -/
 
+/-- one receiver fed a list of payloads (`none` = nil).  The receiver is the offset-based model with
+    checked slice expressions (`depUnmarshalX`: a failed check is a panic);
+    `depUnmarshalX_eq` proves it equal to `depUnmarshal`. -/
 def depObsOf : DSt → List (Option Bytes) → List (Pred.C09.DepObs Pred.C09Av1.Md)
   | _, [] => []
   | d, p :: ps =>
     let b := p.getD []
-    let r := depUnmarshal d b
-    let f := depUnmarshal {} b
+    let r := depUnmarshalX d b
+    let f := depUnmarshalX {} b
     { res := r.1.coarse, md := { z := r.2.z, y := r.2.y, n := r.2.n },
       head := depIsPartitionHead b, tail0 := depIsPartitionTail false b,
       tail1 := depIsPartitionTail true b, auxPanic := false,
